@@ -660,10 +660,55 @@ def jar_history_problem(hist):
     return None, outs
 
 
+# ---- AK: cookie keys spelled like attributes (seed C13-5b): the jar must treat only what follows the first ';' as
+#          attributes - the pair itself never is one
+ATTR_NAMES = ["secure", "httponly", "samesite", "domain", "path", "max-age", "expires", "partitioned"]
+AK_KEYS = [f(n) for n in ATTR_NAMES for f in (str.lower, str.upper, str.title)] + ["HttpOnly", "SameSite", "Max-Age"]
+AK_VALUES = ["1", "0", "x", "example.org", "/p", "", "Strict", "Thu, 01 Jan 1970 00:00:00 GMT"]
+AK_KW = [
+    {},
+    {"secure": True, "httponly": True, "samesite": "Strict", "max_age": 60, "expires": T0},   # explicit: no clock
+    {"path": None},
+    {"domain": "localhost", "expires": T0, "partitioned": True},
+]
+
+
+def attrkey_problem(ki, vi, via, kwi):
+    key, v, kw = AK_KEYS[ki], AK_VALUES[vi], dict(AK_KW[kwi])
+    try:
+        c = Client(_app)
+        if via == 0:
+            _JAR.update(key=key, value=v, kw=kw)
+            c.get("/set")
+        else:
+            if kw.get("path", "/") is None:
+                return None, "Client.set_cookie needs a path"
+            ckw = {k: x for k, x in kw.items() if k != "domain"}
+            c.set_cookie(key, v, origin_only="domain" not in kw, **ckw)
+        got = _sent(c, "localhost", "/get")
+        ck = c.get_cookie(key, domain="localhost", path="/")
+    except Exception as e:  # noqa: BLE001
+        return "exception:" + type(e).__name__, repr(e)
+    if got != [(key, v)]:
+        return "attrkey:cookie-not-returned", got
+    if ck is None:
+        return "attrkey:not-stored-under-its-own-key", None
+    want = {
+        "decoded_key": key, "decoded_value": v, "domain": "localhost", "path": "/",
+        "secure": bool(kw.get("secure") or kw.get("partitioned")), "http_only": bool(kw.get("httponly")),
+        "same_site": kw.get("samesite"), "max_age": kw.get("max_age"),
+        "expires": T0 if "expires" in kw else None, "origin_only": "domain" not in kw,
+    }
+    have = {k: getattr(ck, k) for k in want}
+    if have != want:
+        return "attrkey:jar-fields", {k: (have[k], want[k]) for k in want if have[k] != want[k]}
+    return None, got
+
+
 # ---- dispatcher used by run_unit and replay
 R2 = {
     "sync": sync_problem, "resp": resp_problem, "samesite": samesite_problem, "expform": expform_problem,
-    "multi": multi_problem, "scope": scope_problem, "jarhist": lambda *h: jar_history_problem(h),
+    "multi": multi_problem, "scope": scope_problem, "attrkey": attrkey_problem, "jarhist": lambda *h: jar_history_problem(h),
 }
 
 
@@ -720,6 +765,8 @@ def units(tier):
     for pi in range(len(PATHS)):
         us.append(("r2resp", pi))
     us.append(("r2misc",))
+    for ki in range(len(AK_KEYS)):
+        us.append(("r2attrkey", ki))
     for v0 in range(len(MC_VALUES)):
         us.append(("r2multi", v0))
     for di in range(len(CJ_DOMAINS)):
@@ -853,6 +900,13 @@ def run_r2_unit(unit, R, tier):
             for key in (c, "x" + c + "y", c + c):
                 for v in KS_VALUES:
                     check_value(R, key, v, "keysweep")
+    elif kind == "r2attrkey":
+        ki = unit[1]
+        for vi in range(len(AK_VALUES)):
+            for via in (0, 1):
+                for kwi in range(len(AK_KW)):
+                    r2_eval(R, "attrkey", (ki, vi, via, kwi))
+        R.use("attrkey:" + AK_KEYS[ki].lower())
     elif kind == "r2multi":
         v0 = unit[1]
         nv = len(MC_VALUES)
@@ -945,7 +999,7 @@ def finalize(R, tier):
                                         "scope:withheld", "pairs", "sweepx"}
     need |= {"tchar:" + c for c in TCHARS} | {"cls:%d" % i for i in range(len(MC_CLS))} | {"parser:0", "parser:1"}
     need |= {"sep:%d" % i for i in range(1, len(MC_SEPS))}
-    need |= {"jarop:" + o for o in JAR_OPS}
+    need |= {"jarop:" + o for o in JAR_OPS} | {"attrkey:" + n for n in ATTR_NAMES}
     if tier == "thorough":
         need |= {"strings5"}
     missing = need - R.used
